@@ -781,6 +781,71 @@ def check_elements_are_not_drained(repo, rep, uni, scope=None):
     return n
 
 
+GROWERS = ('append', 'add', 'extend', 'update', 'setdefault', 'insert',
+           'appendleft', 'extendleft')
+
+
+def check_accumulating_loops(repo, rep, uni):
+    """R08j: with only yaql.memoryQuota set a collection argument is not
+    bounded in length; a loop over it that grows a local container is bounded
+    only if the quota is applied to that container *inside* the loop.  A
+    single check after the loop (or on a wrapper object whose sys.getsizeof
+    does not grow with its content) comes too late on a long or endless
+    source."""
+    n = 0
+    seen = set()
+    for o in uni.reg.overloads:
+        fi = o.func
+        if fi.key in seen:
+            continue
+        seen.add(fi.key)
+        sources = {p.name for p in o.params if p.type.limiting}
+        if not sources:
+            continue
+        env = None
+        for loop in [x for x in model.walk_shallow(fi.node)
+                     if isinstance(x, ast.For)]:
+            if not (model.names_loaded(loop.iter) & sources):
+                continue
+            grown = {}
+            for x in ast.walk(loop):
+                b = None
+                if isinstance(x, ast.Call) and isinstance(
+                        x.func, ast.Attribute) and x.func.attr in GROWERS:
+                    b = x.func.value
+                    while isinstance(b, (ast.Attribute, ast.Subscript,
+                                         ast.Call)):
+                        b = b.func if isinstance(b, ast.Call) else b.value
+                elif isinstance(x, ast.Assign):
+                    for t in x.targets:
+                        if isinstance(t, ast.Subscript):
+                            b = t.value
+                if isinstance(b, ast.Name) and b.id not in sources:
+                    grown.setdefault(b.id, x)
+            for name, at in sorted(grown.items()):
+                env = env or uni.env(fi)
+                v = env.ev(ast.Name(id=name, ctx=ast.Load()))
+                if not any(t[0] == 'fresh' for t in v.tags):
+                    continue      # a context, the source itself, ...
+                n += 1
+                measured = [c for c in ast.walk(loop)
+                            if isinstance(c, ast.Call) and (repo.resolve(
+                                fi.module, c.func,
+                                model.scope_locals(fi)) or '').endswith(
+                                'limit_memory_usage') and
+                            name in model.names_loaded(c)]
+                rep.ob('R08j', '%s/%s' % (fi.key, name), bool(measured),
+                       '%s grows `%s` once per element of a collection '
+                       'argument without applying utils.limit_memory_usage '
+                       'to it inside the loop: under yaql.memoryQuota alone '
+                       'a long or endless source makes it grow without '
+                       'bound' % (fi.qualname, name),
+                       loc=fi.module.loc(loop),
+                       construct=model.norm(at).split('\n')[0][:100])
+    rep.floor('accumulating loops over collection arguments', n, 3)
+    return n
+
+
 def _bound_as_element(fi, name):
     for x in model.walk_shallow(fi.node):
         if isinstance(x, (ast.For, ast.comprehension)) and any(
@@ -805,6 +870,9 @@ def _sized_test(e, name):
 
 
 def run(repo, rep):
+    rep.rule('R08j', 'ACCUMULATING-LOOPS-MEASURE-INSIDE: a loop over a '
+             'collection argument that grows a local container applies the '
+             'memory quota to it inside the loop')
     rep.rule('R08i', 'ELEMENTS-ARE-NOT-DRAINED: no eager consumer is applied '
              'to an element of a collection argument (elements are not '
              'limit-wrapped)')
@@ -847,6 +915,7 @@ def run(repo, rep):
     rep.rule('R08h', 'QUOTA-MEASURES-EVERYTHING: limit_memory_usage sizes '
              'and compares every sample; no kind of value is exempt')
     check_quota_measures_everything(repo, rep)
+    check_accumulating_loops(repo, rep, uni)
     ni = check_elements_are_not_drained(repo, rep, uni)
     # positive control (the rule has no instance on today's tree)
     from sa.rules import c09
